@@ -142,10 +142,10 @@ func schedDescribe(sch *vrt.Sched) string {
 }
 
 // schedEnum yields the root execution and one case per first-level alternative of every scenario.
-func schedEnum(scens []*scenario, bound func(c *mc.Ctx) int) func(c *mc.Ctx, yield func(schedSpec)) {
+func schedEnum(scens []*scenario, bound func(c *mc.Ctx, scen int) int) func(c *mc.Ctx, yield func(schedSpec)) {
 	return func(c *mc.Ctx, yield func(schedSpec)) {
-		b := bound(c)
 		for si, sc := range scens {
+			b := bound(c, si)
 			// discovery pre-pass (identical in every shard process): the default schedule and all its
 			// one-deviation neighbours are executed until the conflict set stops growing
 			var root *vrt.Sched
@@ -202,7 +202,7 @@ func schedRun(scens []*scenario, prop string) func(c *mc.Ctx, s schedSpec) {
 				c.ViolateWith("livelock|"+sc.name, where+": the execution did not finish within the step budget", rep)
 			}
 			for _, p := range sch.Panics {
-				c.ViolateWith("panic|"+failingCall(p.Value+" "+p.Stack), fmt.Sprintf("%s: thread %s panicked: %s @ %s", where, p.Thread, p.Value, p.Stack), rep)
+				c.ViolateWith("panic|"+panicClass(p.Value, p.Stack), fmt.Sprintf("%s: thread %s panicked: %s @ %s", where, p.Thread, p.Value, p.Stack), rep)
 			}
 			if sch.Deadlock {
 				c.ViolateWith("deadlock|"+sc.name, where+": deadlock: "+sch.DeadInfo, rep)
@@ -276,4 +276,19 @@ func schedRun(scens []*scenario, prop string) func(c *mc.Ctx, s schedSpec) {
 			c.Count("conflict_set_repeats", 1)
 		}
 	}
+}
+
+// panicClass: the panic message without numbers/addresses plus the innermost repository function.
+func panicClass(val, stack string) string {
+	fn := ""
+	for _, part := range strings.Split(stack, " | ") {
+		if strings.HasPrefix(part, "github.com/alpacahq/marketstore/v4/") && !strings.Contains(part, "/verif/") {
+			fn = strings.TrimPrefix(part, "github.com/alpacahq/marketstore/v4/")
+			if i := strings.LastIndex(fn, "("); i > 0 {
+				fn = fn[:i]
+			}
+			break
+		}
+	}
+	return errClass(fmt.Errorf("%s", val)) + "@" + fn
 }
